@@ -142,12 +142,33 @@ void harness(void) {
     char prev[EH];
     int prevlen = 0, prev_common = 0;
     VIN_INIT();
+#ifdef MENU
+    /* structured variant: MENU units, each one of eight header spellings (symbolic choice), joined by ';', ended by LF.
+     * Reaches 3- and 4-unit messages (compound header, common command in the middle, relative header, undefined unit ...)
+     * that the free-text variant cannot afford. */
+    {
+        static const char * const menu[8] = {"A:B", "A:C", ":A:B", "*C", "C", "B", "C?", "A:B:C"};
+        int u2, k2;
+        n = 0;
+        for (u2 = 0; u2 < MENU; u2++) {
+            const char * m = menu[vin.sel[u2] & 7];
+            if (u2 > 0) orig[n++] = ';';
+            for (k2 = 0; k2 < 5; k2++) if (m[k2] && (k2 == 0 || m[k2 - 1])) orig[n++] = m[k2];
+        }
+        orig[n++] = '\n';
+        for (i = 0; i < N; i++) {
+            if (i >= n) orig[i] = 0;
+            buf[i] = orig[i];
+        }
+    }
+#else
     n = vin.len;
     VASSUME(n >= 1 && n <= N);
     for (i = 0; i < N; i++) {
         orig[i] = i < n ? alphabet[vin.sel[i] & 7] : 0;
         buf[i] = orig[i];
     }
+#endif
     orig[N] = 0;
     buf[N] = 0;
 
